@@ -69,12 +69,17 @@ def common_checks(r, want_valid=True):
 LEAF_ALL = ["int64", "float64", "bool", "int32", "uint8", "float32", "int8", "uint64", "int16", "uint16", "uint32"]
 
 
-def gen_pure(rng, depth, optleaf=0.3, optlist=0.2, regular=0.0, size0=True, leaf=None):
-    """type with `depth` list levels below the array: lists / options / numbers only"""
+def gen_pure(rng, depth, optleaf=0.3, optlist=0.2, regular=0.0, size0=True, leaf=None, leafrec=0.0):
+    """type with `depth` list levels below the array: lists / options / numbers only (leafrec: records of numbers as leaves)"""
     if depth == 0:
-        T = ("num", rng.choice(leaf or LEAF_ALL))
+        if rng.random() < leafrec:
+            k = rng.randint(1, 2)
+            keys = None if rng.random() < 0.3 else ["x", "y"][:k]
+            T = ("record", keys, [gen_pure(rng, 0, optleaf, 0, 0, size0, leaf, 0.0) for _ in range(k)])
+        else:
+            T = ("num", rng.choice(leaf or LEAF_ALL))
         return ("option", T) if rng.random() < optleaf else T
-    inner = gen_pure(rng, depth - 1, optleaf, optlist, regular, size0, leaf)
+    inner = gen_pure(rng, depth - 1, optleaf, optlist, regular, size0, leaf, leafrec)
     if rng.random() < regular:
         T = ("regular", inner, rng.randint(0 if size0 else 1, 3))
     else:
@@ -177,11 +182,227 @@ def fam_valid_accept(rng):
     return Case("validity " + lay.tokens(), check, {"value": vals, "type": T})
 
 
+def struct_depth(T):
+    """number of list levels (the array itself is level 1) of a list/regular/option type, leaves opaque"""
+    d = 1
+    while True:
+        if T[0] == "option":
+            T = T[1]
+        elif T[0] in ("list", "regular"):
+            d += 1
+            T = T[1]
+        else:
+            return d
+
+
+def has_record(T):
+    if T[0] == "record":
+        return True
+    if T[0] in ("list", "regular", "option"):
+        return has_record(T[1])
+    return False
+
+
+def _struct_case(rng, regular=0.25, maxdepth=3):
+    T = gen_pure(rng, rng.randint(0, maxdepth), regular=regular, leafrec=0.2)
+    vals = [L.gen_value(rng, T) for _ in range(rng.randint(0, 4))]
+    lay = L.Enc(rng).encode(vals, T)
+    return T, vals, lay, struct_depth(T)
+
+
+def _axis(rng, T, depth, lo=0):
+    """an axis in [lo, depth-1], written negatively half of the time (never negatively across records, where a
+    negative axis is resolved per field)"""
+    posaxis = rng.randint(lo, depth - 1)
+    if rng.random() < 0.5 and not has_record(T):
+        return posaxis - depth, posaxis
+    return posaxis, posaxis
+
+
+def fam_num(rng):
+    """C05: num(axis) equals the lengths of the lists at that level; missing lists stay missing"""
+    T, vals, lay, depth = _struct_case(rng)
+    if has_record(T) and depth == 1:
+        return None      # num of an array of records is resolved per field (a record of counts)
+    axis, posaxis = _axis(rng, T, depth)
+    ref = R.num(vals, posaxis)
+    return Case("num %d %s" % (axis, lay.tokens()), expect_value(ref, "num(axis=%d) of %r" % (axis, vals)), {"value": vals, "type": T})
+
+
+def fam_flatten(rng):
+    """C05: flatten(axis >= 1) concatenates, in order, the lists at that level; a missing list contributes nothing"""
+    T, vals, lay, depth = _struct_case(rng)
+    if depth < 2:
+        return None
+    axis, posaxis = _axis(rng, T, depth, 1)
+    ref = R.flatten(vals, posaxis)
+    return Case("flatten %d %s" % (axis, lay.tokens()), expect_value(ref, "flatten(axis=%d) of %r" % (axis, vals)), {"value": vals, "type": T})
+
+
+def fam_localindex(rng):
+    """C05: local_index(axis) is 0..n-1 inside every list at that level"""
+    T, vals, lay, depth = _struct_case(rng)
+    axis, posaxis = _axis(rng, T, depth)
+    ref = R.localindex(vals, posaxis)
+    return Case("localindex %d %s" % (axis, lay.tokens()), expect_value(ref, "local_index(axis=%d) of %r" % (axis, vals)), {"value": vals, "type": T})
+
+
+def fam_rpad(rng):
+    """C09: pad_none(target, axis, clip) gives every list at that axis length max(len, target) (exactly target with clip) by appending None"""
+    T, vals, lay, depth = _struct_case(rng)
+    axis, posaxis = _axis(rng, T, depth)
+    target, clip = rng.randint(0, 5), rng.random() < 0.5
+    ref = R.rpad(vals, target, posaxis, clip)
+    return Case("rpad %d %d %d %s" % (target, axis, clip, lay.tokens()),
+                expect_value(ref, "pad_none(target=%d, axis=%d, clip=%s) of %r" % (target, axis, clip, vals)), {"value": vals, "type": T})
+
+
+def fam_combinations(rng):
+    """C07: combinations(n, replacement, axis) yields per list exactly the itertools tuples, in order"""
+    T, vals, lay, depth = _struct_case(rng, maxdepth=2)
+    axis, posaxis = _axis(rng, T, depth)
+    n, repl = rng.randint(1, 4), rng.random() < 0.4
+    ref = R.combinations(vals, n, repl, posaxis)
+    return Case("combinations %d %d %d %s" % (n, repl, axis, lay.tokens()),
+                expect_value(ref, "combinations(n=%d, replacement=%s, axis=%d) of %r" % (n, repl, axis, vals), cmp=L.same), {"value": vals, "type": T})
+
+
+SORT_OPTLIST = 0.0
+SORT_OPTLEAF = 0.3
+
+
+def fam_sort(rng):
+    """C06: sort(axis) orders every list along the axis (NaN first, missing last) and leaves every other level untouched;
+    missing values at the leaves only (KF-C06-sort-missing-lists)"""
+    T = gen_pure(rng, rng.randint(0, 3), regular=0.0, optlist=SORT_OPTLIST, optleaf=SORT_OPTLEAF)
+    vals = [L.gen_value(rng, T) for _ in range(rng.randint(0, 4))]
+    lay = L.Enc(rng).encode(vals, T)
+    depth = struct_depth(T)
+    posaxis = depth - 1
+    axis = posaxis if rng.random() < 0.5 else -1
+    asc, stable = rng.random() < 0.5, rng.random() < 0.5
+    ref = R.sort(vals, posaxis, asc)
+    return Case("sort %d %d %d %s" % (axis, asc, stable, lay.tokens()),
+                expect_value(ref, "sort(axis=%d, ascending=%s, stable=%s) of %r" % (axis, asc, stable, vals)), {"value": vals, "type": T})
+
+
+def fam_argsort(rng):
+    """C06: argsort(axis) returns, per list, positions that realise the sorted order (stable: ties in original order);
+    missing values at the leaves only and at least one present leaf (KF-C06-*)"""
+    T = gen_pure(rng, rng.randint(0, 3), regular=0.0, optlist=SORT_OPTLIST, optleaf=SORT_OPTLEAF)
+    vals = [L.gen_value(rng, T) for _ in range(rng.randint(0, 4))]
+    if "None" in repr(vals) and not any(ch.isdigit() or ch in "TF" for ch in repr(vals).replace("None", "")):
+        return None
+    lay = L.Enc(rng).encode(vals, T)
+    depth = struct_depth(T)
+    posaxis = depth - 1
+    axis = posaxis if rng.random() < 0.5 else -1
+    asc, stable = rng.random() < 0.5, rng.random() < 0.5
+
+    def ok(got, orig, d):
+        if d == 0:
+            if not isinstance(got, list):
+                return False
+            # positions of missing values may be rendered as None by the library: they must come last
+            npresent = sum(1 for v in orig if v is not None)
+            pos = got[:npresent]
+            rest = got[npresent:]
+            if any(p is None for p in pos):
+                return False
+            missing_pos = [i for i, v in enumerate(orig) if v is None]
+            if all(p is None for p in rest):
+                full = pos + missing_pos
+            else:
+                full = got
+            if len(full) != len(orig) or any(not isinstance(p, int) for p in full):
+                return False
+            return R.is_sorted_realisation(orig, full, asc, stable)
+        if not isinstance(got, list) or len(got) != len(orig):
+            return False
+        return all((g is None and o is None) or (g is not None and o is not None and ok(g, o, d - 1)) for g, o in zip(got, orig))
+
+    def check(r):
+        if r.status != "OK":
+            return ("value", "argsort: library %s (%s %s)" % (r.status, r.exc or "", r.msg[:200]))
+        if not ok(r.value, vals, posaxis):
+            return ("value", "argsort(axis=%d, ascending=%s, stable=%s) of %r: library returned %s, which does not realise the sorted order" % (axis, asc, stable, vals, r.raw[:400]))
+        return common_checks(r)
+    return Case("argsort %d %d %d %s" % (axis, asc, stable, lay.tokens()), check, {"value": vals, "type": T})
+
+
+def fam_carry_range(rng):
+    """C02/C01 base: carry(index) selects x[i] for each i; getitem_range(a, b) is Python's x[a:b]; getitem_at(i) is x[i]"""
+    T = L.gen_type(rng, rng.randint(0, 2), allow_union=True)
+    vals = [L.gen_value(rng, T) for _ in range(rng.randint(0, 5))]
+    lay = L.Enc(rng).encode(vals, T)
+    n = len(vals)
+    k = rng.random()
+    if k < 0.35 and n > 0:
+        idx = [rng.randrange(n) for _ in range(rng.randint(0, 6))]
+        return Case("carry %d %s %s" % (len(idx), " ".join(map(str, idx)), lay.tokens()) if idx else "carry 0 %s" % lay.tokens(),
+                    expect_value([vals[i] for i in idx], "carry(%r) of %r" % (idx, vals), cmp=L.same), {"value": vals})
+    if k < 0.7:
+        a = rng.choice([None] + list(range(-n - 2, n + 3)))
+        b = rng.choice([None] + list(range(-n - 2, n + 3)))
+        return Case("getitem_range %s %s %s" % ("_" if a is None else a, "_" if b is None else b, lay.tokens()),
+                    expect_value(vals[a:b], "x[%r:%r] of %r" % (a, b, vals), cmp=L.same), {"value": vals})
+    i = rng.randint(-n - 1, n)
+    if -n <= i < n:
+        return Case("getitem_at %d %s" % (i, lay.tokens()), expect_value(vals[i], "x[%d] of %r" % (i, vals), cmp=L.same, want_valid=False), {"value": vals})
+
+    def check(r):
+        if r.status == "EXC":
+            return None
+        return ("value", "x[%d] on an array of length %d must raise an index error, library: %s" % (i, n, r))
+    return Case("getitem_at %d %s" % (i, lay.tokens()), check, {"value": vals})
+
+
+def fam_convert(rng):
+    """C02/C09: conversions among encodings keep the value: toListOffsetArray64, toRegularArray, option-encoding
+    conversions, simplify_optiontype, shallow_simplify, deep_copy, project (drops exactly the missing values), bytemask"""
+    T = L.gen_type(rng, rng.randint(0, 2), allow_union=False)
+    vals = [L.gen_value(rng, T) for _ in range(rng.randint(0, 5))]
+    lay = L.Enc(rng).encode(vals, T)
+    cands = ["deep_copy", "shallow_simplify"]
+    if isinstance(lay, (L.LO, L.LA, L.RG)):
+        cands += ["toListOffsetArray64 0", "toListOffsetArray64 1"]
+        if len(set(len(v) for v in vals)) <= 1 and len(vals) > 0:
+            cands.append("toRegularArray")
+    if isinstance(lay, (L.IO, L.BM, L.BT, L.UM)):
+        cands += ["project", "bytemask", "simplify_optiontype"]
+    if isinstance(lay, (L.BM, L.BT, L.UM)):
+        cands.append("toIndexedOptionArray64")
+    if isinstance(lay, (L.BT, L.UM)):
+        cands.append("toByteMaskedArray")
+    if isinstance(lay, L.IX):
+        cands += ["project", "simplify_optiontype"]
+    if isinstance(lay, L.NP) and len(lay.shape) >= 1:
+        cands += ["toRegularArray", "contiguous"]
+    what = rng.choice(cands)
+    if what == "project":
+        ref = [v for v in vals if v is not None]
+    elif what == "bytemask":
+        ref = [1 if v is None else 0 for v in vals]
+    else:
+        ref = vals
+    op = what if what in ("deep_copy", "shallow_simplify") else "convert " + what
+    return Case("%s %s" % (op, lay.tokens()), expect_value(ref, "%s of %r" % (what, vals), cmp=(loose if what == "bytemask" else L.same)), {"value": vals})
+
+
 # family -> (generator, properties whose statement the VALUE contract comes from)
 FAMILIES = {
     "reduce_ragged": (fam_reduce_ragged, ["C03"]),
     "reduce_rect": (fam_reduce_rect, ["C03"]),
     "tolist": (fam_tolist, ["C02"]),
+    "carry_range": (fam_carry_range, ["C02", "C01"]),
+    "convert": (fam_convert, ["C02", "C09"]),
+    "num": (fam_num, ["C05"]),
+    "flatten": (fam_flatten, ["C05"]),
+    "localindex": (fam_localindex, ["C05"]),
+    "rpad": (fam_rpad, ["C09"]),
+    "combinations": (fam_combinations, ["C07"]),
+    "sort": (fam_sort, ["C06"]),
+    "argsort": (fam_argsort, ["C06"]),
     "valid_accept": (fam_valid_accept, ["C11"]),
 }
 CATEGORY_PROPS = {"validity": ["C11"], "purity": ["C12"], "crash": ["C12"]}
